@@ -127,7 +127,7 @@ def record(cfg):
         sim.run()
     finally:
         SIR.set_prognoses, SIR.step_state, People.request_death, People.grow, People.step_die = o_sp, o_ss, o_rd, o_grow, o_sd
-    return init_lines, events, sim, flag['late']
+    return init_lines, events, sim, flag['late'], len(au)
 
 
 def step_line(e):
@@ -192,24 +192,30 @@ def compare(cfg, out, init_lines, events, sim):
     return diffs
 
 
-def real_statements(sim):
-    """ the theorems' statements evaluated on the real results alone """
+def real_statements(sim, events=None, n_active0=None):
+    """ the theorems' statements evaluated on the real results alone: C13_run_rows_balanced and C10_composed_run_balance """
     bad = []
+    prev = n_active0
     for r in real_rows(sim):
         if r['nS'] + r['nI'] + r['nR'] != r['n_alive']:
             bad.append(f"step {r['ti']}: n_susceptible + n_infected + n_recovered = {r['nS'] + r['nI'] + r['nR']} but n_alive = {r['n_alive']}")
+        if events is not None and prev is not None:
+            b = events.get(r['ti'], {}).get('births', 0)
+            if r['n_alive'] + r['new_deaths'] != prev + b:
+                bad.append(f"step {r['ti']}: n_alive + new_deaths = {r['n_alive']} + {r['new_deaths']} but there were {prev} active agents before the step and {b} births")
+        prev = r['n_alive']
     return bad
 
 
 def run_cfg(ctx, cfg):
-    init_lines, events, sim, late = record(cfg)
+    init_lines, events, sim, late, n_active0 = record(cfg)
     nsteps = len(sim.results.n_alive)
     lines = list(init_lines)
     for ti in range(nsteps):
         lines.append(step_line(events.get(ti, dict(births=0, background=[], calls=[]))))
     lines.append('dump')
     out = ctx.drive(DRIVER, lines)
-    return compare(cfg, out, init_lines, events, sim), real_statements(sim), dict(steps=nsteps, agents=len(init_lines) - 1,
+    return compare(cfg, out, init_lines, events, sim), real_statements(sim, events, n_active0 if late == 0 else None), dict(steps=nsteps, agents=len(init_lines) - 1,
         infections=sum(len(c) for e in events.values() for c in e['calls']), background=sum(len(e['background']) for e in events.values()),
         births=sum(e['births'] for e in events.values()), late=late)
 
@@ -238,7 +244,7 @@ def correspond(ctx):
 
 
 def replay(ctx, data):
-    _, _, sim, _ = record(data['cfg'])
-    bad = real_statements(sim)
+    _, events, sim, late, n0 = record(data['cfg'])
+    bad = real_statements(sim, events, n0 if late == 0 else None)
     for b in bad[:2]: print('  ' + b)
     return bool(bad)
